@@ -26,7 +26,6 @@ var hostFuncs = map[string]interface{}{
 	"go/types.AssignableTo":    types.AssignableTo,
 	"go/token.NewFileSet":      token.NewFileSet,
 	"github.com/cloudflare/ahocorasick.NewStringMatcher": ahocorasick.NewStringMatcher,
-	"reflect.TypeOf":           func(x interface{}) reflect.Type { return reflect.TypeOf(x) },
 }
 
 func hostIsNil(h *HostV) bool {
